@@ -7,7 +7,7 @@ written against.  Any edit aborts the translator: Gen/GenTreeCachePins.v goes st
 files import it (Model/TreeCache.v does) reports a broken obligation and the model-free search runs."""
 import ast
 
-from translate import parse, need, find_def, find_class, dump_eq, HEADER
+from translate import parse, need, find_def, find_class, find_assign, const_int, dump_eq, HEADER
 
 HOIST = r'''
 def hoist(token):
@@ -129,9 +129,20 @@ def resolve(self, state):
 
 REPEAT = r'''
 def repeat(state, repetitions_count: uint, body: CodeBlock) -> bytes:
+    compiler = state["compiler"]
     addr = state["emit_address"]
     result = b""
     for _ in range(repetitions_count):
+        # A program cannot hold more than 64 KiB, so this many repetitions (of
+        # all '.repeat' blocks together) cannot be meant: stop instead of
+        # looping for hours or running out of memory
+        compiler.repetitions_compiled += 1
+        if compiler.repetitions_compiled > MAX_REPETITIONS:
+            reports.error(
+                "value-out-of-bounds",
+                (state["insn"].ctx_start, state["insn"].ctx_end, f"Too many repetitions: the '.repeat' blocks of this program are repeated more than {MAX_REPETITIONS} times in total")
+            )
+            break
         chunk = state["compiler"].compile_block({**state, "context": "repeat"}, body, addr)
         if isinstance(chunk, BaseDeferred):
             addr += chunk.length()
@@ -160,6 +171,24 @@ def gen_treecache_pins():
     rep = find_def(mtree, "repeat")
     rep.decorator_list = []
     dump_eq(rep, REPEAT, "metacommands.repeat")
+    # the budget of repetitions compiled by all '.repeat' blocks together
+    maxrep = find_assign(mtree, "MAX_REPETITIONS")
+    need(isinstance(maxrep, ast.BinOp) and isinstance(maxrep.op, ast.Pow), "MAX_REPETITIONS is not a power expression")
+    max_repetitions = const_int(maxrep.left, "MAX_REPETITIONS base") ** const_int(maxrep.right, "MAX_REPETITIONS exponent")
+    ctree, _ = parse("pdpy11/compiler.py")
+    init = find_def(find_class(ctree, "Compiler"), "__init__")
+    need(any(ast.unparse(st) == "self.repetitions_compiled = 0" for st in init.body), "Compiler.__init__ no longer starts repetitions_compiled at 0")
+    # '.include': nesting limit (the 33rd level is refused with 'recursive-include')
+    inc = find_def(mtree, "include")
+    maxinc = const_int(find_assign(mtree, "MAX_INCLUDE_DEPTH"), "MAX_INCLUDE_DEPTH")
+    guards = [st for st in inc.body if isinstance(st, ast.If) and ast.unparse(st.test) == "compiler.include_depth >= MAX_INCLUDE_DEPTH"]
+    need(len(guards) == 1, "include: the depth guard 'compiler.include_depth >= MAX_INCLUDE_DEPTH' is not there exactly once")
+    need(any(isinstance(n, ast.Constant) and n.value == "recursive-include" for n in ast.walk(guards[0])), "include: the depth guard no longer reports 'recursive-include'")
+    need(isinstance(guards[0].body[-1], ast.Return), "include: the depth guard no longer returns")
+    tail = inc.body[inc.body.index(guards[0]) + 1:]
+    need([ast.unparse(st).split("\n")[0] for st in tail] == ["compiler.include_depth += 1", "try:", "return code"],
+         "include: depth bookkeeping around compile_include changed: " + repr([ast.unparse(st).split("\n")[0] for st in tail]))
+    need(any(ast.unparse(st) == "self.include_depth = 0" for st in init.body), "Compiler.__init__ no longer starts include_depth at 0")
     out = HEADER.format(src="pdpy11/insns.py, pdpy11/operators.py, pdpy11/metacommands.py (pins) by tools/gens/gen_treecache.py")
     out += "(* the functions below were compared with the text Model/TreeCache.v was written against *)\n"
     out += "Definition pinned_functions : list string :=\n  [" + "; ".join('"%s"' % n for n in [
@@ -167,6 +196,10 @@ def gen_treecache_pins():
         "InfixOperator.resolve", "UnaryOperator.resolve", "metacommands.repeat"]) + "].\n"
     out += "(* copy.copy calls in hoist(): rewritten nodes are shallow copies, the shared tree is never written *)\n"
     out += "Definition hoist_copy_calls : nat := %d.\n" % copies
+    out += "(* MAX_REPETITIONS: iterations of all '.repeat' blocks of one assembly together (Compiler.repetitions_compiled starts at 0) *)\n"
+    out += "Definition max_repetitions : Z := %d%%Z.\n" % max_repetitions
+    out += "(* MAX_INCLUDE_DEPTH: an '.include' met at this nesting depth is refused with 'recursive-include' *)\n"
+    out += "Definition max_include_depth : nat := %d.\n" % maxinc
     return {"GenTreeCachePins.v": out}
 
 
